@@ -305,3 +305,26 @@ Theorem C15g_example :
          {| LoopRange_f0 := 1; LoopRange_f1 := Some 2 |} = Some false.
 Proof. exact g_example. Qed.
 Print Assumptions C15g_example.
+
+Theorem C15g_fmt_total :
+  forall (r : LoopRange) (f : list N),
+       exists out : list N, M_LoopRange_fmt r f = Some (f ++ out, Ok tt).
+Proof. exact g_fmt_total. Qed.
+Print Assumptions C15g_fmt_total.
+
+Theorem C15g_fmt_abbrev :
+  forall f : list N,
+       M_LoopRange_fmt {| LoopRange_f0 := 0; LoopRange_f1 := Some 1 |} f = Some (f ++ [63], Ok tt) /\
+       M_LoopRange_fmt {| LoopRange_f0 := 0; LoopRange_f1 := None |} f = Some (f ++ [42], Ok tt) /\
+       M_LoopRange_fmt {| LoopRange_f0 := 1; LoopRange_f1 := None |} f = Some (f ++ [43], Ok tt).
+Proof. exact g_fmt_abbrev. Qed.
+Print Assumptions C15g_fmt_abbrev.
+
+Theorem C15g_fmt_example :
+  M_LoopRange_fmt {| LoopRange_f0 := 2; LoopRange_f1 := Some 15 |} [] =
+       Some ([91; 50; 46; 46; 49; 53; 93], Ok tt) /\
+       M_LoopRange_fmt {| LoopRange_f0 := 7; LoopRange_f1 := Some 7 |} [] = Some ([55], Ok tt) /\
+       M_LoopRange_fmt {| LoopRange_f0 := 3; LoopRange_f1 := None |} [] =
+       Some ([91; 51; 46; 46; 105; 110; 102; 41], Ok tt).
+Proof. exact g_fmt_example. Qed.
+Print Assumptions C15g_fmt_example.
